@@ -227,6 +227,20 @@ class _Fold(ast.NodeTransformer):
 
     def visit_Call(self, n):
         self.generic_visit(n)
+        # f(*(a, b, c))  ->  f(a, b, c)      (also through a name bound once to a tuple display)
+        if any(isinstance(a, ast.Starred) for a in n.args):
+            new_args, ok = [], True
+            for a in n.args:
+                if isinstance(a, ast.Starred):
+                    el = _lit_elems(a.value, self.lookup)
+                    if el is None:
+                        ok = False
+                        break
+                    new_args.extend(copy.deepcopy(x) for x in el)
+                else:
+                    new_args.append(a)
+            if ok:
+                n.args = new_args
         # reduce(operator.mul, (a, b, c), init) / math.prod((a, b, c)) / sum((a, b)) over known elements -> the expression
         fn_ = U(n.func)
         opname = None
